@@ -1,11 +1,9 @@
 (* C31 — evaluation: the model string lexer vs lexer::tokenize on string-literal texts. *)
-From Coq Require Import List NArith Bool.
+From Coq Require Import List NArith ZArith Bool.
 Import ListNotations.
-Require Import RV.Model.C30_Text.
+Require Import RV.Model.C30_Text RV.Model.C31_Lexer.
 Open Scope N_scope.
 
-Fixpoint listN_eqb (a b : list N) : bool :=
-  match a, b with [], [] => true | x :: a', y :: b' => N.eqb x y && listN_eqb a' b' | _, _ => false end.
 Definition xexp_eqb (a b : xexp) : bool :=
   match a, b with XExact x, XExact y => N.eqb x y | XOneOf, XOneOf | XHexDigit, XHexDigit | XDLQP, XDLQP => true | _, _ => false end.
 Definition lkind_eqb (a b : lkind) : bool :=
@@ -22,6 +20,30 @@ Definition sres_eqb (a b : sres) : bool :=
   | SErr k s e, SErr k' s' e' => lkind_eqb k k' && N.eqb s s' && N.eqb e e'
   | _, _ => false          (* SPanic never agrees: a panic of the implementation is a failure *)
   end.
-Inductive case := CNone | CString (text : list N) (out : sres).
+Definition token_eqb (a b : token) : bool :=
+  match a, b with
+  | TBool x, TBool y => Bool.eqb x y
+  | TInt s1 b1 v1, TInt s2 b2 v2 => Bool.eqb s1 s2 && N.eqb b1 b2 && Z.eqb v1 v2
+  | TString x, TString y | TIdent x, TIdent y => listN_eqb x y
+  | TOpenP, TOpenP | TCloseP, TCloseP | TLt, TLt | TGt, TGt | TComma, TComma | TSemi, TSemi | TFatArrow, TFatArrow => true
+  | _, _ => false
+  end.
+Fixpoint toks_eqb (a b : list tok) : bool :=
+  match a, b with
+  | [], [] => true
+  | (t1, s1, e1) :: a', (t2, s2, e2) :: b' => token_eqb t1 t2 && N.eqb s1 s2 && N.eqb e1 e2 && toks_eqb a' b'
+  | _, _ => false
+  end.
+Definition lres_eqb (a b : lres) : bool :=
+  match a, b with
+  | LOk x, LOk y => toks_eqb x y
+  | LErr k s e, LErr k' s' e' => lkind_eqb k k' && N.eqb s s' && N.eqb e e'
+  | _, _ => false
+  end.
+Inductive case := CNone | CString (text : list N) (out : sres) | CLex (text : list N) (out : lres).
 Definition check (c : case) : bool :=
-  match c with CNone => true | CString text out => sres_eqb (lex_string_literal text) out end.
+  match c with
+  | CNone => true
+  | CString text out => sres_eqb (lex_string_literal text) out
+  | CLex text out => lres_eqb (tokenize text) out
+  end.
